@@ -31,10 +31,14 @@ def run(ctx, prop):
     l2 = ctx.path("stress_log.ndjson")
     ctx.harness(["stress", "-out", l2, "-runs", "2" if quick else "10", "-clients", "8" if quick else "24",
                  "-requests", "150" if quick else "400", "-seed", str(ctx.seed)], timeout=1500)
+    # a real TCP client that stalls for several seconds in the middle of the replies, then resumes
+    l3 = ctx.path("slow_log.ndjson")
+    ctx.harness(["slow", "-out", l3, "-stall", "6500ms" if quick else "12s"], timeout=300)
     lp = ctx.path("log.ndjson")
     with open(lp, "w") as f:
         f.write(open(l1).read())
         f.write(open(l2).read())
+        f.write(open(l3).read())
     viol, drift = ctx.validate("Trace_Outbox", "Trace_Outbox.cfg", lp, timeout=1200)
     nstress = sum(1 for line in open(l2) if '"ledger"' in line)
     ctx.cov["traces_validated_against_impl"] += len(scheds) + nstress
